@@ -40,6 +40,8 @@ pub fn test_case(case: &TrainCase) -> TestResult {
         trainer.add_example(s);
     }
     let _ = verif_hooks::take_train_record();
+    // the examples actually handed to the learner (for the train/predict consistency clause)
+    let stored = trainer.verif_examples();
     let model = match trainer.train(0.01, 1.0, train::solver_of(cfg.solver)) {
         Ok(m) => m,
         Err(_) => return Ok(Info::new(false).class(true, "skipped:train-returned-error")),
@@ -116,7 +118,40 @@ pub fn test_case(case: &TrainCase) -> TestResult {
             "scores of {text:?} differ from learned bias + learned feature weights (cfg {cfg:?})"
         );
     }
+    // train/predict consistency: on every training sentence the model must compute the learner's
+    // own function of the example that was stored for that boundary (features exactly as the
+    // trainer extracted them), whatever the reference extraction says
+    let n_annotated: usize = case.corpus.iter().map(|r| r.labels.iter().filter(|&&l| l != 2).count()).sum();
+    let mut consistency_checked = 0;
+    if stored.len() == n_annotated {
+        let mut k = 0;
+        for r in &case.corpus {
+            let text = r.text();
+            let mut s = Sentence::from_raw(text.clone()).map_err(|e| e.to_string())?;
+            p.predict(&mut s);
+            let got = util::scores_i64(&s);
+            for (i, &l) in r.labels.iter().enumerate() {
+                if l == 2 {
+                    continue;
+                }
+                let ex = &stored[k];
+                k += 1;
+                let mut y = bias;
+                for (f, v) in &ex.features {
+                    y += weights.get(f).copied().unwrap_or(0) * (*v as i64);
+                }
+                ensure_eq!(
+                    got[i],
+                    y,
+                    "training sentence {text:?}, boundary {i}: the model's score differs from the learned function of the example stored for it (features {:?}, cfg {cfg:?})",
+                    ex.features
+                );
+                consistency_checked += 1;
+            }
+        }
+    }
     Ok(Info::new(nonzero)
+        .class(consistency_checked > 0, "train/predict-consistency-checked")
         .class(true, "trained")
         .class(cfg.charw != cfg.typew, "charw!=typew")
         .class(cfg.typew > cfg.charw, "typew>charw")
